@@ -181,6 +181,12 @@ fn pair_switch<R: HRole>(run: &mut Runner<R>, pair: u64, st: &mut CaseStats) -> 
         (c.get_stored_packets(), q)
     };
     let persistent = run.conn.as_ref().unwrap().verif_state().need_store;
+    if pair == 10 && run.conn.as_ref().unwrap().verif_state().pingresp_recv_set && run.nops % 3 != 0 {
+        run.apply(&Op::SetPingrespTimeout(0), st);
+        if run.dead {
+            return (Vec::new(), Vec::new());
+        }
+    }
     let before = export(run);
     run.apply(&Op::Closed, st);
     if run.dead {
@@ -528,6 +534,16 @@ fn drive<R: HRole>(rng: &mut Rng, role_n: u64, ver: u64, bias: u64, abuse: bool,
             }
             continue;
         }
+        if roll == 15 && (bias == 7 || bias == 13 || bias == 6 || rng.chance(1, 3)) {
+            // the handled-id set is REPLACED by what the application restores, at any point
+            let mut ids: Vec<u64> = (0..rng.range(0, 3)).map(|_| *rng.pick(&small_ids)).collect();
+            ids.sort();
+            ids.dedup();
+            run.apply(&Op::RestoreQos2(ids), &mut st);
+            observe(&run, &mut g);
+            g.in_q2.clear();
+            continue;
+        }
         if roll < 15 {
             // id management
             match rng.below(5) {
@@ -840,6 +856,22 @@ fn peer_traffic<R: HRole>(
     run: &mut Runner<R>, rng: &mut Rng, g: &mut Ghost, s: &mqtt::connection::core::VerifState, wv: u64, bias: u64,
     st: &mut CaseStats, abuse: bool, small_ids: &[u64; 5],
 ) {
+    if rng.chance(1, 40) {
+        // an acknowledgement-type frame with packet identifier 0 on the wire (cannot be built: crafted bytes),
+        // alone or followed by a reason-code byte / an empty property section
+        let fh = *rng.pick(&[0x40u8, 0x50, 0x62, 0x70, 0x90, 0xB0]);
+        let mut b = vec![fh, 0];
+        b.extend_from_slice(&vec![0u8; IDW as usize]);
+        match rng.below(4) {
+            0 => {}
+            1 => b.push(*rng.pick(&[0x00u8, 0x92, 0x80, 0x10])),
+            2 => { b.push(*rng.pick(&[0x00u8, 0x92])); b.push(0) }
+            _ => b.push(0xFF),
+        }
+        b[1] = (b.len() - 2) as u8;
+        feed(run, rng, b, g, st, abuse);
+        return;
+    }
     let roll = rng.below(100);
     let pick_from = |rng: &mut Rng, set: &Vec<u64>| -> Option<u64> {
         if set.is_empty() { None } else { Some(set[rng.below(set.len() as u64) as usize]) }
@@ -1041,9 +1073,78 @@ fn held_cell<R: HRole>(role_n: u64, cver: u64, as_client: bool, pver: u64, qos: 
     Some(run.line())
 }
 
+/// cells with an INBOUND exchange open under the identifier the refused response carries: a persistent session,
+/// a QoS 1/2 PUBLISH received and not yet answered, the transport closed (and possibly a reconnect under way),
+/// then the response (PUBACK / PUBREC success / PUBREC failure / PUBCOMP) is handed to send().  A refusal must
+/// leave the inbound exchange (handled-id set, Receive Maximum account) as it was.
+fn inbound_cell<R: HRole>(role_n: u64, cver: u64, as_client: bool, qos: u8, resp: u64, reconnecting: bool, st: &mut CaseStats) -> Option<String> {
+    let version = if cver == 4 { Version::V3_1_1 } else { Version::V5_0 };
+    let mut rng = Rng::new(17);
+    let mut run = Runner::<R>::new(version, role_n, cver);
+    run.out.insert(0, 1);
+    let connect: Packet = if cver == 4 {
+        v3_1_1::Connect::builder().client_id("cid").unwrap().clean_session(false).keep_alive(0u16).build().unwrap().into()
+    } else {
+        v5_0::Connect::builder().client_id("cid").unwrap().clean_start(false).keep_alive(0u16)
+            .props(vec![mqtt::packet::SessionExpiryInterval::new(100).unwrap().into(), mqtt::packet::ReceiveMaximum::new(2).unwrap().into()]).build().unwrap().into()
+    };
+    let connack: Packet = if cver == 4 {
+        v3_1_1::Connack::builder().session_present(false).return_code(ConnectReturnCode::Accepted).build().unwrap().into()
+    } else {
+        v5_0::Connack::builder().session_present(false).reason_code(ConnectReasonCode::Success)
+            .props(vec![mqtt::packet::ReceiveMaximum::new(2).unwrap().into()]).build().unwrap().into()
+    };
+    if as_client { run.apply(&Op::Send(connect.clone()), st); run.apply(&Op::Recv(bytes_of(&connack)), st); }
+    else { run.apply(&Op::Recv(bytes_of(&connect)), st); run.apply(&Op::Send(connack.clone()), st); }
+    if run.conn.as_ref().unwrap().verif_state().status as u64 != 2 { return None }
+    let pid = 1u64;
+    let inbound = mk_publish(&mut rng, cver, qos, pid, false)?;
+    run.apply(&Op::Recv(bytes_of(&inbound)), st);
+    run.apply(&Op::Closed, st);
+    if reconnecting {
+        if as_client { run.apply(&Op::Send(connect.clone()), st); } else { run.apply(&Op::Recv(bytes_of(&connect)), st); }
+    }
+    let id = pid as Pid;
+    let p: Packet = if cver == 4 {
+        match resp {
+            0 => v3_1_1::GenericPuback::<Pid>::builder().packet_id(id).build().ok()?.into(),
+            1 | 2 => v3_1_1::GenericPubrec::<Pid>::builder().packet_id(id).build().ok()?.into(),
+            _ => v3_1_1::GenericPubcomp::<Pid>::builder().packet_id(id).build().ok()?.into(),
+        }
+    } else {
+        match resp {
+            0 => v5_0::GenericPuback::<Pid>::builder().packet_id(id).build().ok()?.into(),
+            1 => v5_0::GenericPubrec::<Pid>::builder().packet_id(id).build().ok()?.into(),
+            2 => v5_0::GenericPubrec::<Pid>::builder().packet_id(id).reason_code(PubrecReasonCode::UnspecifiedError).build().ok()?.into(),
+            _ => v5_0::GenericPubcomp::<Pid>::builder().packet_id(id).build().ok()?.into(),
+        }
+    };
+    run.apply(&Op::Send(p), st);
+    Some(run.line())
+}
+
 pub fn gen_matrix(out: &mut Vec<String>, st: &mut CaseStats) -> (u64, u64) {
     let mut cells = 0u64;
     let mut unreachable = 0u64;
+    for role_n in 0..3u64 {
+        for cver in [4u64, 5] {
+            let sides: &[bool] = match role_n { 0 => &[true], 1 => &[false], _ => &[true, false] };
+            for as_client in sides {
+                for qos in [1u8, 2] {
+                    for resp in 0..4u64 {
+                        for reconnecting in [false, true] {
+                            let line = match role_n {
+                                0 => inbound_cell::<role::Client>(role_n, cver, *as_client, qos, resp, reconnecting, st),
+                                1 => inbound_cell::<role::Server>(role_n, cver, *as_client, qos, resp, reconnecting, st),
+                                _ => inbound_cell::<role::Any>(role_n, cver, *as_client, qos, resp, reconnecting, st),
+                            };
+                            match line { Some(l) => { cells += 1; out.push(l) } None => unreachable += 1 }
+                        }
+                    }
+                }
+            }
+        }
+    }
     for role_n in 0..3u64 {
         for cver in [4u64, 5] {
             let sides: &[bool] = match role_n { 0 => &[true], 1 => &[false], _ => &[true, false] };
